@@ -58,8 +58,16 @@ def render(ctx, tpl, ds, de):
             src += t
             parts.append(dict(kind='open', name=p[1], attrs=p[2] if len(p) > 2 else '', start=st, end=len(src)))
         elif p[0] == 'c':
-            src += list(ds) + [47] + list(p[1].encode()) + list(de)
+            src += list(ds) + [47] + list(p[1].encode()) + (list(p[2].encode()) if len(p) > 2 else []) + list(de)
             parts.append(dict(kind='close', name=p[1], start=st, end=len(src)))
+        elif p[0] == 'pc':
+            # a closing tag cut off inside its end delimiter (the file ends there): text - unless `keep` covers the whole delimiter
+            keep = p[2]
+            src += list(ds) + [47] + list(p[1].encode()) + [32] + list(de)[:keep]
+            if keep >= len(de):
+                parts.append(dict(kind='close', name=p[1], start=st, end=len(src)))
+            else:
+                parts.append(dict(kind='lit', start=st, end=len(src)))
         elif p[0] == 'x':
             # a malformed tag (quote or '=' right after a closing quote, value-less '=' ...): plain text for the reference
             src += list(ds) + list(p[1].encode()) + list(de)
